@@ -86,8 +86,11 @@ pub struct Fixture {
 }
 
 pub fn fixture() -> Result<Fixture, String> {
+    fixture_spec(&AppSpec::simple(base_net()))
+}
+
+pub fn fixture_spec(spec: &AppSpec) -> Result<Fixture, String> {
     let scratch = Scratch::new("c19");
-    let spec = AppSpec::simple(base_net());
     let app = spec.build(&scratch.path.join("app"))?;
     Ok(Fixture { app: Arc::new(app), scratch })
 }
@@ -202,7 +205,8 @@ pub fn judge(sc: &Scenario, alone: &BTreeMap<String, Value>, out: &Outcome) -> (
                     // C06: each task's vector equals the alone-responses of its batch, in order
                     let want: Vec<Value> = sc.batches[ti].iter().map(|q| alone.get(q["qid"].as_str().unwrap_or("")).cloned().unwrap_or(Value::Null)).collect();
                     let got: Vec<Value> = a.iter().map(project).collect();
-                    if got != want {
+                    // sums over hash-ordered maps may differ in the last bit: compare at 12 significant digits
+                    if got.iter().map(crate::engine::canon_json).collect::<Vec<_>>() != want.iter().map(crate::engine::canon_json).collect::<Vec<_>>() {
                         bad.push(("task_returns_alone_responses_in_order", format!("task {} returned {:?} want {:?}", ti, got, want)));
                     }
                     returned.extend(a.iter().cloned());
@@ -351,6 +355,9 @@ pub fn explore_scenario(fx: &Fixture, sc: &Scenario, bound: Option<usize>, max_s
             st.traces += 1;
             st.states += 1;
             let (bad, order, _file) = LAST.with(|l| l.borrow_mut().take()).unwrap_or_default();
+            if orders.is_empty() && std::env::var("VERIF_DEBUG_LABELS").is_ok() {
+                eprintln!("{}: {:?}", sc.name, x.points.iter().map(|p| p.label.clone()).collect::<Vec<_>>());
+            }
             if x.preemptions() > 0 {
                 st.nontrivial += 1;
             }
